@@ -37,6 +37,10 @@ CHECKS = {
    technique="TLA+ transcription of XorBytes (Xor.tla, Bitwise) ; TLC enumerates the structural case space (lengths x offsets x aliasing) and validates every real call's full before/after contents",
    text="TLC enumerates 32 076 (quick) / 221 952 (thorough) structural cases: len(a), len(b) in 0..17 (0..33), start offsets of the three slices, dst==a, dst==b, disjoint, slack in dst; each is executed on the real XorBytes with seeded contents inside guard-padded arrays plus random long inputs; TLC recomputes the expected bytes and compares return value, dst, a, b; guard bytes checked by the harness.",
    note="only the crypto/subtle-backed build of XorBytes exists on this toolchain; contents are sampled, structure is exhaustive within the bounds"),
+ "C08": dict(engine="vrt-sched", design_ref="DESIGN.md §4 C08",
+   technique="TLA+ protocol model (MC_BufferSync.tla) + linearizability/quiescence trace spec (BufferConc.tla); real Buffer under a gate scheduler (yield points inserted by tools/instr) in synctest bubbles, schedules enumerated depth-first then seeded random; every schedule's call/return/quiescence history validated by TLC",
+   text="TLC checks NoStuckReader/CloseWakesAll/EventuallyServed on the wake-up protocol (and that the protocol without re-posting violates it). The real Buffer, with a yield before every lock/channel/select operation, runs scenario families (up to 3 readers, 3 writes, Close, past/future/cleared deadlines with the clock advancing, deadline re-arm races) under all schedules up to a budget per scenario (exhaustive where marked) plus seeded random schedules; at exact quiescence every unreturned call must be a Read that legitimately waits (empty, open, deadline not passed) and every returned call must linearize on the FIFO spec.",
+   note="critical sections are atomic steps; Go's random select choice is uncontrolled; exhaustive only for the scenarios the evidence marks exhaustive; schedule space beyond the budget is sampled"),
 }
 
 def main():
